@@ -5,6 +5,7 @@ import json, sys
 pid = sys.argv[1]; extra = " ".join(sys.argv[2:])
 prop = next(p for p in map(json.loads, open('/verif/properties.jsonl')) if p['id'] == pid)
 text = f"{prop['title']}\n{prop['statement']}\n(It must hold for: {prop['quantifier']['text']}.)\nRelevant files: {', '.join(prop['anchors']['files'])}"
-rules = open('/verif/tools/round3_rules.txt').read().replace('__ID__', pid)
+import os
+rules = open(os.environ.get('RULES','/verif/tools/round3_rules.txt')).read().replace('__ID__', pid)
 body = open('/verif/tools/deepen_prompt.md').read().replace('__ID__', pid).replace('__PROPERTY__', text)
 open(f'/work/{pid}/PROMPT.md', 'w').write(body + "\n\n" + rules + ("\n\n" + extra if extra else ""))
